@@ -43,7 +43,9 @@ def main():
         res["fails"] = list(rt.FAILS)
         if not ok and not rt.FAILS:
             res["fails"] = [[spec.get("property", "?") + ":harness-returned-false", ""]]
-    except Exception as e:
+    except BaseException as e:       # a harness fault type may derive from BaseException (C05 ground obligations)
+        if isinstance(e, (SystemExit, KeyboardInterrupt)):
+            raise
         tb = traceback.extract_tb(e.__traceback__)
         where = ""
         for fr in reversed(tb):
